@@ -129,6 +129,24 @@ Proof.
   intros. split; [apply dealloc_is_assembled|]. split; [apply shrink_is_assembled | apply grow_is_assembled].
 Qed.
 
+(* Alloc::realloc for &Bump (the entry RawVec uses, so every growing Vec and String goes through it):
+   the zero-size shortcut, the new layout and the shrink / grow choice as /repo has them, and the model's
+   realloc assembled from exactly those values *)
+Theorem C12_source_realloc_dispatch : forall p l n,
+  call_fn src_fns [] "realloc_old_is_empty" [VN p; vlayout l; VN n] = Ret (VB (l_size l =? 0)) /\
+  call_fn src_fns [] "realloc_new_layout" [VN p; vlayout l; VN n]
+    = Ret (if layout_ok n (l_align l) then vlayout (mkLayout n (l_align l)) else VNone) /\
+  call_fn src_fns [] "realloc_shrinks" [VN p; vlayout l; VN n] = Ret (VB (n <=? l_size l)).
+Proof. exact src_realloc_ok. Qed.
+
+Theorem C12_realloc_assembled_from_source_parts : forall k A b p l n,
+  realloc k A b p l n =
+  realloc_assembled k A b p l (l_size l =? 0)
+    (if layout_ok n (l_align l) then Some (mkLayout n (l_align l)) else None) (n <=? l_size l).
+Proof. exact realloc_is_assembled. Qed.
+
+Print Assumptions C12_source_realloc_dispatch.
+Print Assumptions C12_realloc_assembled_from_source_parts.
 Print Assumptions C12_source_dealloc.
 Print Assumptions C12_source_shrink.
 Print Assumptions C12_source_grow.
